@@ -53,6 +53,22 @@ def _install_once():
     transit.Connection.callLater = lambda self, period, func: _current_reactor().callLater(period, func)
     ipaddrs.find_addresses = lambda: list(CURRENT[0].local_addresses)
     transit.allocate_tcp_port = lambda: _current_reactor().alloc_port()
+    # twisted's Cooperator stops a tick after 10 ms of *wall clock*; make a tick a fixed number of
+    # iterations so that runs are reproducible (any count is a behaviour the real one can show)
+    import wormhole.wormhole as _ww
+    from twisted.internet.task import Cooperator as _Coop
+
+    def _det_cooperator(*a, **kw):
+        def factory():
+            n = [0]
+
+            def pred():
+                n[0] += 1
+                return n[0] > 3
+            return pred
+        kw.setdefault("terminationPredicateFactory", factory)
+        return _Coop(*a, **kw)
+    _ww.Cooperator = _det_cooperator
     # autobahn's factories call random.seed() (OS entropy) in __init__, which would make the
     # ClientService jitter and the frame masks differ from run to run: neutralise the reseed
     import autobahn.websocket.protocol as _awp
